@@ -32,8 +32,10 @@ Next == /\ Len(hist) < DepthOf(sh0)
            \/ ASetCtrlpts(1) \/ ASetWeights(1) \/ AScaleWeights(RI(2))
            \/ ATranslate(Vec(obj))
            \/ ASampleSize(3)
+           \/ AScale(RI(-1))
+           \/ \E d \in 1..3 : ASampleSizeDir(d, 3)
 Spec == Init /\ [][Next]_vars
 T_WellFormed == WellFormed(obj)
 \* reads never change the definition
-P_ReadPure == [][hist'[Len(hist')].a \in {"read", "sample_size"} => obj' = obj]_vars
+P_ReadPure == [][hist'[Len(hist')].a \in {"read", "sample_size", "sample_size_dir"} => obj' = obj]_vars
 =============================================================================
